@@ -39,7 +39,9 @@ def bound(tier):
 MAGS = [0.0, 5e-324, 1e-300, 1e-20, 1e-10, 1.0, 59.999999, 90.0, 180.0, 359.99999999, 360.0,
         720.0, 1080.0, 1e6, 1e9 + 0.5, 123456789.123, 1e15, 25.0, 24.0, 23.999999999, 375.0]
 FORMS1 = ["float", "int", "tuple1", "list1", "radians", "set_radians", "radians_list",
-          "radians_tuple", "ra", "set_ra", "ra_tuple", "copy", "set_on_used"]
+          "radians_tuple", "ra", "set_ra", "ra_tuple", "copy", "set_on_used",
+          # both keywords given, one of them switched off
+          "radians_ra_off", "ra_radians_off", "both_off", "set_radians_ra_off"]
 
 
 def build1(form, x):
@@ -74,6 +76,16 @@ def build1(form, x):
         return Angle((x,), ra=True), Fraction(x) * 15
     if form == "copy":
         return Angle(Angle(x)), Fraction(x)
+    if form == "radians_ra_off":
+        return Angle(x, ra=False, radians=True), R.rad2deg_exact(x)
+    if form == "ra_radians_off":
+        return Angle(x, radians=False, ra=True), Fraction(x) * 15
+    if form == "both_off":
+        return Angle(x, radians=False, ra=False), Fraction(x)
+    if form == "set_radians_ra_off":
+        a = Angle(5.5)
+        a.set(x, radians=True, ra=False)
+        return a, R.rad2deg_exact(x)
     if form == "set_on_used":
         a = Angle(123.456)
         a.to_positive()
@@ -154,7 +166,7 @@ DS = [0, 1, -1, 23, -23, 359, 360, 361, -743, 0.5, -0.5, 12.999999, -359, 719, 3
 MS = [0, 1, -1, 26, 59, 60, 61, -26, 59.999999, 0.5, 125, 59.99999999999999]
 SS = [0, 0.0, 1, -1, 48.999, 59.9999999, 60, 61, -48.9, 3600, 1e-9, 59.99999999999999, 59.999999999999]
 FORMS3 = ["args", "tuple", "list", "args4", "tuple4", "list4", "args2", "tuple2", "ra_args",
-          "set_args"]
+          "set_args", "args4_signed", "tuple4_signed", "list4_signed"]
 
 
 def fractional_pieces():
@@ -239,6 +251,13 @@ def build3(form, d, m, s):
         mag2 = abs(Fraction(d)) + abs(Fraction(m)) / 60
         e2 = -mag2 if neg2 else mag2
         return (Angle(d, m) if form == "args2" else Angle((d, m))), e2
+    # the pieces keep their own signs and an explicit +1 is given as well: the sign is carried by any piece
+    if form == "args4_signed":
+        return Angle(d, m, s, 1.0), exact
+    if form == "tuple4_signed":
+        return Angle((d, m, s, 1.0)), exact
+    if form == "list4_signed":
+        return Angle([d, m, s, 1.0]), exact
     # explicit sign element
     out = []
     sg = -1.0 if neg else 1.0
